@@ -330,64 +330,87 @@ def gen_heat_loop(rng, n_cons=None, modes=None, with_hex=True):
 
 
 # ---------------------------------------------------------------------------------------------------
-def build(spec, run_options=False):
-    """create the pandapipes net described by spec"""
+DEFAULT_ORDER = ["ext_grids", "sinks", "sources", "mass_storages", "pipes", "valves", "pumps", "compressors",
+                 "flow_controls", "press_controls", "heat_exchangers", "heat_consumers", "circ_pumps_p", "circ_pumps_m"]
+
+
+def build(spec, run_options=False, order=None, row_perm=None):
+    """create the pandapipes net described by spec.  `order`: creation order of the element tables (valves must
+    come after pipes when junction-pipe valves exist); `row_perm`: table -> permutation of row creation order
+    (elements then need explicit "index" labels to keep their identity)."""
     import pandapipes as pp
     net = pp.create_empty_network(fluid=spec["fluid"])
     J = []
-    for j in spec["junctions"]:
-        J.append(pp.create_junction(net, pn_bar=j["pn_bar"], tfluid_k=j["tfluid_k"], height_m=j["height_m"],
-                                    in_service=j["in_service"], index=j.get("index")))
-    for e in spec["ext_grids"]:
-        pp.create_ext_grid(net, J[e["junction"]], p_bar=e["p_bar"], t_k=e["t_k"], type=e.get("type", "pt"),
-                           in_service=e["in_service"], index=e.get("index"))
-    for e in spec["sinks"]:
-        pp.create_sink(net, J[e["junction"]], mdot_kg_per_s=e["mdot"], scaling=e["scaling"], in_service=e["in_service"],
-                       index=e.get("index"))
-    for e in spec["sources"]:
-        pp.create_source(net, J[e["junction"]], mdot_kg_per_s=e["mdot"], scaling=e["scaling"], in_service=e["in_service"],
-                         index=e.get("index"))
-    for e in spec["mass_storages"]:
-        pp.create_mass_storage(net, J[e["junction"]], mdot_kg_per_s=e["mdot"], scaling=e["scaling"],
+    jorder = list(range(len(spec["junctions"])))
+    if row_perm and "junctions" in row_perm:
+        jorder = list(row_perm["junctions"])
+    J = [None] * len(spec["junctions"])
+    for k in jorder:
+        j = spec["junctions"][k]
+        J[k] = pp.create_junction(net, pn_bar=j["pn_bar"], tfluid_k=j["tfluid_k"], height_m=j["height_m"],
+                                  in_service=j["in_service"], index=j.get("index"))
+    P = {}
+
+    def rows(t):
+        idx = list(range(len(spec[t])))
+        if row_perm and t in row_perm:
+            idx = list(row_perm[t])
+        return [(i, spec[t][i]) for i in idx]
+
+    def mk(t):
+        for i, e in rows(t):
+            if t == "ext_grids":
+                pp.create_ext_grid(net, J[e["junction"]], p_bar=e["p_bar"], t_k=e["t_k"], type=e.get("type", "pt"),
+                                   in_service=e["in_service"], index=e.get("index"))
+            elif t == "sinks":
+                pp.create_sink(net, J[e["junction"]], mdot_kg_per_s=e["mdot"], scaling=e["scaling"],
                                in_service=e["in_service"], index=e.get("index"))
-    P = []
-    for e in spec["pipes"]:
-        P.append(pp.create_pipe_from_parameters(
-            net, J[e["from"]], J[e["to"]], length_km=e["length_km"], inner_diameter_mm=e["d_mm"], k_mm=e["k_mm"],
-            sections=e["sections"], loss_coefficient=e["loss"], u_w_per_m2k=e["u_w_per_m2k"], text_k=e["text_k"],
-            in_service=e["in_service"], index=e.get("index")))
-    for e in spec["valves"]:
-        el = J[e["element"]] if e["et"] == "ju" else P[e["element"]]
-        pp.create_valve(net, J[e["junction"]], el, e["et"], inner_diameter_mm=e["d_mm"], opened=e["opened"],
-                        loss_coefficient=e["loss"], index=e.get("index"))
-    for e in spec["pumps"]:
-        pp.create_pump(net, J[e["from"]], J[e["to"]], std_type=e["std_type"], in_service=e["in_service"], index=e.get("index"))
-    for e in spec["compressors"]:
-        pp.create_compressor(net, J[e["from"]], J[e["to"]], pressure_ratio=e["ratio"], in_service=e["in_service"],
-                             index=e.get("index"))
-    for e in spec["flow_controls"]:
-        pp.create_flow_control(net, J[e["from"]], J[e["to"]], controlled_mdot_kg_per_s=e["mdot"],
-                               control_active=e["control_active"], in_service=e["in_service"], index=e.get("index"))
-    for e in spec["press_controls"]:
-        pp.create_pressure_control(net, J[e["from"]], J[e["to"]], J[e["controlled"]], controlled_p_bar=e["p_bar"],
-                                   control_active=e["control_active"], loss_coefficient=e["loss"],
-                                   in_service=e["in_service"], index=e.get("index"),
-                                   check_controllability=False)
-    for e in spec["heat_exchangers"]:
-        pp.create_heat_exchanger(net, J[e["from"]], J[e["to"]], qext_w=e["qext_w"], inner_diameter_mm=e["d_mm"],
-                                 loss_coefficient=e["loss"], in_service=e["in_service"], index=e.get("index"))
-    for e in spec["heat_consumers"]:
-        pp.create_heat_consumer(net, J[e["from"]], J[e["to"]], qext_w=e["qext_w"], controlled_mdot_kg_per_s=e["mdot"],
-                                deltat_k=e["deltat_k"], treturn_k=e["treturn_k"], in_service=e["in_service"],
-                                index=e.get("index"))
-    for e in spec["circ_pumps_p"]:
-        pp.create_circ_pump_const_pressure(net, J[e["return"]], J[e["flow"]], p_flow_bar=e["p_flow_bar"],
-                                           plift_bar=e["plift_bar"], t_flow_k=e["t_flow_k"], in_service=e["in_service"],
-                                           index=e.get("index"))
-    for e in spec["circ_pumps_m"]:
-        pp.create_circ_pump_const_mass_flow(net, J[e["return"]], J[e["flow"]], p_flow_bar=e["p_flow_bar"],
-                                            mdot_flow_kg_per_s=e["mdot"], t_flow_k=e["t_flow_k"],
-                                            in_service=e["in_service"], index=e.get("index"))
+            elif t == "sources":
+                pp.create_source(net, J[e["junction"]], mdot_kg_per_s=e["mdot"], scaling=e["scaling"],
+                                 in_service=e["in_service"], index=e.get("index"))
+            elif t == "mass_storages":
+                pp.create_mass_storage(net, J[e["junction"]], mdot_kg_per_s=e["mdot"], scaling=e["scaling"],
+                                       in_service=e["in_service"], index=e.get("index"))
+            elif t == "pipes":
+                P[i] = pp.create_pipe_from_parameters(
+                    net, J[e["from"]], J[e["to"]], length_km=e["length_km"], inner_diameter_mm=e["d_mm"], k_mm=e["k_mm"],
+                    sections=e["sections"], loss_coefficient=e["loss"], u_w_per_m2k=e["u_w_per_m2k"], text_k=e["text_k"],
+                    in_service=e["in_service"], index=e.get("index"))
+            elif t == "valves":
+                el = J[e["element"]] if e["et"] == "ju" else P[e["element"]]
+                pp.create_valve(net, J[e["junction"]], el, e["et"], inner_diameter_mm=e["d_mm"], opened=e["opened"],
+                                loss_coefficient=e["loss"], index=e.get("index"))
+            elif t == "pumps":
+                pp.create_pump(net, J[e["from"]], J[e["to"]], std_type=e["std_type"], in_service=e["in_service"],
+                               index=e.get("index"))
+            elif t == "compressors":
+                pp.create_compressor(net, J[e["from"]], J[e["to"]], pressure_ratio=e["ratio"], in_service=e["in_service"],
+                                     index=e.get("index"))
+            elif t == "flow_controls":
+                pp.create_flow_control(net, J[e["from"]], J[e["to"]], controlled_mdot_kg_per_s=e["mdot"],
+                                       control_active=e["control_active"], in_service=e["in_service"], index=e.get("index"))
+            elif t == "press_controls":
+                pp.create_pressure_control(net, J[e["from"]], J[e["to"]], J[e["controlled"]], controlled_p_bar=e["p_bar"],
+                                           control_active=e["control_active"], loss_coefficient=e["loss"],
+                                           in_service=e["in_service"], index=e.get("index"), check_controllability=False)
+            elif t == "heat_exchangers":
+                pp.create_heat_exchanger(net, J[e["from"]], J[e["to"]], qext_w=e["qext_w"], inner_diameter_mm=e["d_mm"],
+                                         loss_coefficient=e["loss"], in_service=e["in_service"], index=e.get("index"))
+            elif t == "heat_consumers":
+                pp.create_heat_consumer(net, J[e["from"]], J[e["to"]], qext_w=e["qext_w"],
+                                        controlled_mdot_kg_per_s=e["mdot"], deltat_k=e["deltat_k"], treturn_k=e["treturn_k"],
+                                        in_service=e["in_service"], index=e.get("index"))
+            elif t == "circ_pumps_p":
+                pp.create_circ_pump_const_pressure(net, J[e["return"]], J[e["flow"]], p_flow_bar=e["p_flow_bar"],
+                                                   plift_bar=e["plift_bar"], t_flow_k=e["t_flow_k"],
+                                                   in_service=e["in_service"], index=e.get("index"))
+            elif t == "circ_pumps_m":
+                pp.create_circ_pump_const_mass_flow(net, J[e["return"]], J[e["flow"]], p_flow_bar=e["p_flow_bar"],
+                                                    mdot_flow_kg_per_s=e["mdot"], t_flow_k=e["t_flow_k"],
+                                                    in_service=e["in_service"], index=e.get("index"))
+
+    for t in (order or DEFAULT_ORDER):
+        mk(t)
     return net
 
 
@@ -398,10 +421,10 @@ def run(net, spec, **override):
     pp.pipeflow(net, **opts)
 
 
-def try_run(spec, **override):
+def try_run(spec, build_kw=None, **override):
     """build and run; returns (net, None) or (net, exception)"""
     import warnings
-    net = build(spec)
+    net = build(spec, **(build_kw or {}))
     try:
         with warnings.catch_warnings():
             warnings.simplefilter("ignore")
